@@ -307,7 +307,8 @@ impl Sim {
             if let Some(t) = self.next_timeout()
                 && t > self.time_ms
             {
-                let need = t - self.time_ms;
+                // (a timeout may be absurdly far away: keep the arithmetic inside i64)
+                let need = (t - self.time_ms).min(i64::MAX as u64 / 2);
                 // sometimes undershoot so that "not early" is exercised
                 let ms = if r.chance(1, 3) && need > 1 { r.range(1, need as i64 - 1) as u64 } else { need };
                 return Choice::Tick { ms };
